@@ -380,7 +380,7 @@ fn kani_store_env(env: *mut Env) -> core::mem::ManuallyDrop<ContinuityStore> {
     core::mem::forget(receiver);
     let store = ContinuityStore {
         data_dir: env_path(env),
-        workspace_root: PathBuf::new(),
+        workspace_root: env_path(env),
         event_log: Arc::new(rip_log::verif_kani::kani_event_log_at(env_path(env))),
         stream_cache: crate::continuity_stream_cache::verif_kani::kani_cache_at(env_path(env)),
         sender,
@@ -451,6 +451,15 @@ fn env_log_append(this: &EventLog, event: &Event) -> io::Result<()> {
     Ok(())
 }
 fn env_cache_append_noop(_this: &ContinuityStreamCache, _event: &Event) {}
+fn env_write_handoff_bundle(root: &Path, _bundle: &HandoffContextBundleV1) -> Result<String, String> {
+    // workspace_root of the harness store is an empty path; the context is reached through a thread-local-free trick:
+    // the bundle writer is only called from handoff(), whose store carries the context in data_dir -- not visible here,
+    // so the call is counted through the bundle's own source field pointer-free: we simply return a fixed id and let
+    // the harness count calls through `Env::bundle_writes` via the path argument when it carries the context.
+    let env = env_of_path(root);
+    env.bundle_writes += 1;
+    Ok(lit("art"))
+}
 fn env_send_noop<T>(_this: &broadcast::Sender<T>, value: T) -> Result<usize, broadcast::error::SendError<T>> {
     core::mem::forget(value);
     Ok(0)
@@ -598,6 +607,130 @@ macro_rules! c10_branch {
         }
     };
 }
+macro_rules! c10_handoff {
+    ($name:ident, $k1:ident, $k2:ident) => {
+        #[kani::proof]
+        #[kani::unwind(6)]
+        #[kani::stub(std::fmt::format, stub_fmt_format)]
+        #[kani::stub(std::hash::RandomState::new, stub_random_state_new)]
+        #[kani::stub(uuid::Uuid::new_v4, stub_uuid_v4)]
+        #[kani::stub(now_ms, stub_now_ms_sym)]
+        #[kani::stub(alloc::string::ToString::to_string, stub_to_string_empty)]
+        #[kani::stub(workspace_key, stub_workspace_key)]
+        #[kani::stub(ContinuityStore::replay_events, env_replay)]
+        #[kani::stub(ContinuityStore::create_continuity, env_create_continuity)]
+        #[kani::stub(rip_log::EventLog::append, env_log_append)]
+        #[kani::stub(ContinuityStreamCache::append_best_effort, env_cache_append_noop)]
+        #[kani::stub(broadcast::Sender::send, env_send_noop)]
+        #[kani::stub(crate::handoff_context_bundle::write_bundle_v1, env_write_handoff_bundle)]
+        fn $name() {
+            let seqs: [u64; 3] = kani::any();
+            kani::assume(seqs[0] < seqs[1] && seqs[1] < seqs[2]);
+            let mut ids: [u8; 3] = kani::any();
+            kani::assume((ids[1] == b'a' || ids[1] == b'b') && (ids[2] == b'a' || ids[2] == b'b'));
+            let idp = ids.as_mut_ptr();
+            let mut hist = core::mem::ManuallyDrop::new([
+                h_created(seqs[0]),
+                $k1(seqs[1], unsafe { idp.add(1) }),
+                $k2(seqs[2], unsafe { idp.add(2) }),
+            ]);
+            let mut env = Env::new(hist.as_mut_ptr(), 3);
+            let store = kani_store_env(&mut env);
+
+            // selector
+            let sel: u8 = kani::any();
+            kani::assume(sel < 4);
+            let want_seq: u64 = kani::any();
+            let mut want_id_b: [u8; 1] = kani::any();
+            kani::assume(want_id_b[0] == b'a' || want_id_b[0] == b'b' || want_id_b[0] == b'c');
+            let from_seq = if sel == 1 || sel == 3 { Some(want_seq) } else { None };
+            let from_mid = if sel == 2 || sel == 3 { Some(alias_str_raw(want_id_b.as_mut_ptr(), 1)) } else { None };
+
+            // summary: none / text / artifact id / both
+            let sum: u8 = kani::any();
+            kani::assume(sum < 4);
+            let summary = (
+                if sum == 1 || sum == 3 { Some(lit("m")) } else { None },
+                if sum == 2 || sum == 3 { Some(lit("i")) } else { None },
+            );
+            let r = store.handoff("p", None, summary, from_mid, from_seq, (lit("u"), lit("o")));
+            if sum == 0 {
+                assert!(r.is_err() && env.created == 0 && env.log_appends == 0 && env.replays == 0, "handoff without any summary must be refused before anything happens");
+            }
+            if r.is_ok() {
+                assert!(env.last_has_summary_artifact, "handoff lineage frame carries no resolvable summary artifact");
+                assert!((sum == 1) == (env.bundle_writes == 1), "summary artifact written exactly when only text was supplied");
+            }
+
+            // reference over the history
+            let head = seqs[2];
+            let is_msg = |e: &Event| matches!(e.kind, EventKind::ContinuityMessageAppended { .. });
+            match &r {
+                Ok((_tid, cut, mid)) => {
+                    assert!(env.created == 1 && env.log_appends == 1, "handoff must create the child and append exactly its lineage frame");
+                    assert!(!env.last_on_parent, "branch appended a frame to the parent thread");
+                    assert!(env.last_seq == 1 && env.last_kind == 2, "lineage frame is not continuity_handoff_created at seq 1 of the child");
+                    assert!(env.last_cut == *cut, "returned cut differs from the recorded cut");
+                    assert!(*cut <= head, "recorded cut lies beyond the parent's head");
+                    assert!(sel != 3, "conflicting selectors accepted");
+                    if sel == 0 || sel == 1 {
+                        let bound = if sel == 1 { want_seq } else { head };
+                        assert!(*cut == bound, "cut is not the requested seq / the head");
+                        // last message at or before the cut
+                        let mut want: Option<u8> = None;
+                        let mut j = 0;
+                        while j < 3 {
+                            if is_msg(&hist[j]) && seqs[j] <= bound {
+                                want = Some(ids[j]);
+                            }
+                            j += 1;
+                        }
+                        match (want, mid) {
+                            (None, None) => {}
+                            (Some(w), Some(m)) => assert!(m.len() == 1 && m.as_bytes()[0] == w, "lineage names the wrong message"),
+                            _ => assert!(false, "lineage message presence differs from the history"),
+                        }
+                    } else {
+                        // requested message together with the end of the run that answered it
+                        let w = want_id_b[0];
+                        let mut found = false;
+                        let mut maxrel = 0u64;
+                        let mut j = 0;
+                        while j < 3 {
+                            let rel = match &hist[j].kind {
+                                EventKind::ContinuityMessageAppended { .. } => {
+                                    if ids[j] == w { found = true; true } else { false }
+                                }
+                                EventKind::ContinuityRunSpawned { .. } | EventKind::ContinuityRunEnded { .. } => ids[j] == w,
+                                _ => false,
+                            };
+                            if rel && seqs[j] > maxrel {
+                                maxrel = seqs[j];
+                            }
+                            j += 1;
+                        }
+                        assert!(found, "branch accepted a message id that is not a message of the parent");
+                        assert!(*cut == maxrel, "cut is not the end of the requested message's run");
+                        assert!(mid.as_ref().map(|m| m.len() == 1 && m.as_bytes()[0] == w).unwrap_or(false), "lineage names another message");
+                    }
+                    kani::cover!(sel == 2, "branch from a message id accepted");
+                    kani::cover!(sel == 1 && want_seq < head, "branch from a mid-thread seq accepted");
+                }
+                Err(_) => {
+                    assert!(env.created == 0 && env.log_appends == 0, "a refused branch wrote something");
+                    if sel == 1 && sum != 0 {
+                        assert!(want_seq > head, "an in-range from_seq was refused");
+                    }
+                    if sel == 0 && sum != 0 {
+                        assert!(false, "handoff without selector refused on an existing thread");
+                    }
+                    kani::cover!(sel == 3, "conflicting selectors refused");
+                }
+            }
+            core::mem::forget(r);
+        }
+    };
+}
 macro_rules! c10_branch4 {
     ($name:ident, $k1:ident, $k2:ident, $k3:ident) => {
         #[kani::proof]
@@ -714,6 +847,8 @@ c10_branch!(c10_branch_me, h_message, h_run_ended);
 c10_branch!(c10_branch_sm, h_run_spawned, h_message);
 c10_branch!(c10t_branch_se, h_run_spawned, h_run_ended);
 c10_branch!(c10t_branch_em, h_run_ended, h_message);
+c10_handoff!(c10_handoff_ms, h_message, h_run_spawned);
+c10_handoff!(c10t_handoff_me, h_message, h_run_ended);
 // 4-frame parents: a run frame of the requested message may follow a LATER message
 c10_branch4!(c10_branch4_mme, h_message, h_message, h_run_ended);
 c10_branch4!(c10t_branch4_mms, h_message, h_message, h_run_spawned);
@@ -1178,6 +1313,125 @@ fn zz_c04_compile_input_incomplete_tail() {
             kani::cover!(env.replays == 1, "fell back to truth replay");
         }
         Err(_) => assert!(false, "compile input refused for an existing anchor"),
+    }
+    core::mem::forget(r);
+}
+
+// ---------------------------------------------------------------------------------------------------------
+// C09: a cut point counts as checkpointed exactly when a checkpoint frame for that seq exists, the LATEST such frame
+// (stream order) winning. Truth path (cache absent), history [created, message, checkpoint x, checkpoint y]; the two
+// checkpoints' to_seq values are symbolic (each may or may not equal the message's seq; values above it must be
+// ignored). stride 1, limit 1: the one cut point is the message.
+// ---------------------------------------------------------------------------------------------------------
+fn h_checkpoint(seq: u64, id: &'static str, to_seq: u64) -> Event {
+    Event { id: lit("k"), session_id: lit("p"), timestamp_ms: 0, seq,
+        kind: EventKind::ContinuityCompactionCheckpointCreated {
+            checkpoint_id: lit(id), cut_rule_id: lit("r"), summary_kind: lit("s"), summary_artifact_id: lit("a"),
+            from_seq: 0, from_message_id: None, to_seq, to_message_id: None, actor_id: lit("u"), origin: lit("o"),
+        } }
+}
+
+#[kani::proof]
+#[kani::unwind(7)]
+#[kani::stub(std::fmt::format, stub_fmt_format)]
+#[kani::stub(std::hash::RandomState::new, stub_random_state_new)]
+#[kani::stub(alloc::string::ToString::to_string, stub_to_string_empty)]
+#[kani::stub(ContinuityStore::get, stub_get_some)]
+#[kani::stub(ContinuityStore::replay_events, env_replay)]
+#[kani::stub(rip_log::EventLog::append, stub_log_append_unreachable)]
+#[kani::stub(ContinuityStreamCache::message_count_messages_runs_v1, stub_message_count_absent)]
+#[kani::stub(ContinuityStreamCache::message_by_ordinal_messages_runs_v1, stub_message_by_ordinal_absent)]
+#[kani::stub(ContinuityStreamCache::latest_compaction_checkpoint_before_or_at_seq_v1, stub_latest_ckpt_none)]
+#[kani::stub(ContinuityStreamCache::try_read_last_seq, stub_last_seq_absent)]
+fn c09_cut_points_checkpointed_tiebreak() {
+    let seqs: [u64; 4] = kani::any();
+    kani::assume(seqs[0] < seqs[1] && seqs[1] < seqs[2] && seqs[2] < seqs[3] && seqs[3] < u64::MAX);
+    let tx: u64 = kani::any();
+    let ty: u64 = kani::any();
+    let mut ids: [u8; 2] = [b'c', b'a'];
+    let idp = ids.as_mut_ptr();
+    let mut hist = core::mem::ManuallyDrop::new([
+        h_created(seqs[0]),
+        h_message(seqs[1], unsafe { idp.add(1) }),
+        h_checkpoint(seqs[2], "x", tx),
+        h_checkpoint(seqs[3], "y", ty),
+    ]);
+    let mut env = Env::new(hist.as_mut_ptr(), 4);
+    let store = kani_store_env(&mut env);
+    let r = store.compaction_cut_points_v1("p", CompactionCutPointsV1Request { stride_messages: Some(1), limit: Some(1) });
+    match &r {
+        Ok(resp) => {
+            assert!(resp.cut_points.len() == 1 && resp.cut_points[0].to_seq == seqs[1], "the cut point is not the message");
+            let cp = &resp.cut_points[0];
+            let m = seqs[1];
+            let want_already = tx == m || ty == m;
+            assert!(cp.already_checkpointed == want_already, "cut point 'already checkpointed' differs from 'a checkpoint frame for that seq exists'");
+            if want_already {
+                let want_id = if ty == m { b'y' } else { b'x' }; // the later frame wins
+                let got = cp.latest_checkpoint_id.as_ref().expect("checkpoint id reported");
+                assert!(got.len() == 1 && got.as_bytes()[0] == want_id, "latest checkpoint for the cut point is not the latest frame in stream order");
+            } else {
+                assert!(cp.latest_checkpoint_id.is_none(), "checkpoint id reported for a cut point that is not checkpointed");
+            }
+            kani::cover!(tx == m && ty == m, "two checkpoints for the same seq");
+            kani::cover!(tx > m && ty < m, "checkpoints beyond / before the cut point are ignored");
+        }
+        Err(_) => assert!(false, "cut points refused on an existing thread"),
+    }
+    core::mem::forget(r);
+}
+
+// ---------------------------------------------------------------------------------------------------------
+// C08: the summary checkpoint selected for a compile is the latest by to_seq at or before the cut, the LATER frame
+// winning ties -- on the truth path (checkpoint cache answers "nothing"). History [created, checkpoint x, checkpoint y],
+// both to_seq values and the cut (from_seq) symbolic.
+// ---------------------------------------------------------------------------------------------------------
+#[kani::proof]
+#[kani::unwind(6)]
+#[kani::stub(std::fmt::format, stub_fmt_format)]
+#[kani::stub(std::hash::RandomState::new, stub_random_state_new)]
+#[kani::stub(ContinuityStore::replay_events, env_replay)]
+#[kani::stub(ContinuityStreamCache::latest_compaction_checkpoint_before_or_at_seq_v1, stub_latest_ckpt_none)]
+fn c08_latest_checkpoint_for_compile() {
+    let seqs: [u64; 3] = kani::any();
+    kani::assume(seqs[0] < seqs[1] && seqs[1] < seqs[2]);
+    let tx: u64 = kani::any();
+    let ty: u64 = kani::any();
+    let from_seq: u64 = kani::any();
+    let mut hist = core::mem::ManuallyDrop::new([
+        h_created(seqs[0]),
+        h_checkpoint(seqs[1], "x", tx),
+        h_checkpoint(seqs[2], "y", ty),
+    ]);
+    let mut env = Env::new(hist.as_mut_ptr(), 3);
+    let store = kani_store_env(&mut env);
+    let r = store.latest_compaction_checkpoint_for_compile_v1("p", from_seq);
+    match &r {
+        Ok(sel) => {
+            let ex = tx <= from_seq;
+            let ey = ty <= from_seq;
+            // reference: greatest eligible to_seq, later frame (y) on ties
+            let want: Option<(u8, u64)> = if ex && ey {
+                if tx > ty { Some((b'x', tx)) } else { Some((b'y', ty)) }
+            } else if ex {
+                Some((b'x', tx))
+            } else if ey {
+                Some((b'y', ty))
+            } else {
+                None
+            };
+            match (want, sel) {
+                (None, None) => {}
+                (Some((id, to)), Some(got)) => {
+                    assert!(got.to_seq == to, "selected summary checkpoint is not the latest by to_seq at or before the cut");
+                    assert!(got.checkpoint_id.len() == 1 && got.checkpoint_id.as_bytes()[0] == id, "tie between checkpoints not broken by stream order (later frame wins)");
+                }
+                _ => assert!(false, "summary checkpoint selected / not selected differently from the truth log"),
+            }
+            kani::cover!(ex && ey && tx == ty, "tie");
+            kani::cover!(!ex && !ey, "no checkpoint at or before the cut");
+        }
+        Err(_) => assert!(false, "selection refused"),
     }
     core::mem::forget(r);
 }
